@@ -142,6 +142,7 @@ type Exec struct {
 	curCallee  *ssa.Function
 	allAllocs  []string
 	pointeesOnly bool
+	heapInvDone  map[string]bool
 }
 
 type callRec struct {
